@@ -200,22 +200,47 @@ def slotUpdL (k : List Nat) (newKey : LM Nat) (found : LM Unit) (f : LDoc → LM
       if k' = k then LM.bind found (fun _ => LM.bind (f v) (fun v' => LM.pure (some (kid, k', v') :: r)))
       else LM.bind (slotUpdL k newKey found f r) (fun r' => LM.pure (some (kid, k', v) :: r'))
 
+/-- the caller's key object, once built. -/
+inductive CKey where
+  | plain
+  | moved (t : Nat)
+  | constCopy (t : Nat)
+  deriving Repr, Inhabited
+
+def CKey.ids : CKey → List Nat
+  | .plain => []
+  | .moved t => [t]
+  | .constCopy t => [t]
+
+/-- building the caller's key (`String{ptr, len}` allocates). -/
+def callerKey (kv : KV) : LM CKey :=
+  match kv with
+  | .plain => LM.pure .plain
+  | .moved => LM.bind allocB (fun t => LM.pure (.moved t))
+  | .constCopy => LM.bind allocB (fun t => LM.pure (.constCopy t))
+
+/-- the key block of a new member. -/
+def newKeyOf (ck : CKey) : LM Nat :=
+  match ck with
+  | .plain => allocB
+  | .moved t => LM.pure t
+  | .constCopy t => LM.bind allocB (fun kid => LM.bind (freeB t) (fun _ => LM.pure kid))
+
+/-- what happens to the caller's key when the member exists. -/
+def foundOf (ck : CKey) : LM Unit :=
+  match ck with
+  | .plain => LM.pure ()
+  | .moved t => freeB t
+  | .constCopy t => freeB t
+
 /-- `operator[](key)` / `Get` / `Insert` followed by `f` on the reference. -/
 def updKeyL (k : List Nat) (kv : KV) (f : LDoc → LM LDoc) (d : LDoc) : LM LDoc :=
-  LM.bind (match kv with
-           | .plain => LM.pure none
-           | _ => LM.bind allocB (fun t => LM.pure (some t))) (fun tmp =>
+  LM.bind (callerKey kv) (fun ck =>
   LM.bind (match d with
            | .obj b c s => LM.pure (b, c, s)
            | _ => LM.bind (dispose d) (fun _ => LM.pure (none, 0, []))) (fun o =>
   LM.bind (tableExpandIfFull o.1 o.2.1 o.2.2) (fun e =>
-  let newKey : LM Nat :=
-    match kv, tmp with
-    | .moved, some t => LM.pure t
-    | .constCopy, some t => LM.bind allocB (fun kid => LM.bind (freeB t) (fun _ => LM.pure kid))
-    | _, _ => allocB
-  let found : LM Unit := freeOpt tmp
-  LM.bind (slotUpdL k newKey found f e.2.2) (fun s' => LM.pure (.obj e.1 e.2.1 s')))))
+  LM.bind (slotUpdL k (newKeyOf ck) (foundOf ck) f e.2.2) (fun s' => LM.pure (.obj e.1 e.2.1 s')))))
 
 def setAtIdxL (i : Nat) (f : LDoc → LM LDoc) : List LDoc → LM (List LDoc)
   | [] => LM.pure []
@@ -314,7 +339,8 @@ def pushAllL : List LDoc → LDoc → LM LDoc
 items over and release the source block. -/
 def arrConcatL (sb : Option Nat) (sc : Nat) (xs : List LDoc) (v : LDoc) : LM LDoc :=
   LM.bind (asArrL v) (fun a =>
-    if a.2.1 = 0 then LM.pure (.arr sb sc xs)
+    -- `Capacity() == 0`: the target has no block and no items (the two no-ops below say so unconditionally)
+    if a.2.1 = 0 then LM.bind (freeOpt a.1) (fun _ => LM.pure (.arr sb sc (a.2.2 ++ xs)))
     else
       LM.bind (if a.2.2.length + xs.length > a.2.1 then arrayRealloc a.1 (a.2.2.length + xs.length) else LM.pure (a.1, a.2.1)) (fun g =>
       LM.bind (freeOpt sb) (fun _ => LM.pure (.arr g.1 g.2 (a.2.2 ++ xs)))))
@@ -330,17 +356,22 @@ def dropUndefL : List LDoc → List LDoc
   | .undef :: r => dropUndefL r
   | d :: r => d :: dropUndefL r
 
-/-- `Merge(Value&&)` (`cp = false`, the source is finally `Reset()`) / `Merge(const Value&)`. -/
-def mergeL (cp : Bool) (x : LDoc) (v : LDoc) : LM LDoc :=
-  let v1 : LDoc := match v with
-    | .undef => .arr none 0 []
-    | _ => v
+/-- `if (isUndefined()) setTypeToArray();` -/
+def vivArr (v : LDoc) : LDoc :=
+  match v with
+  | .undef => .arr none 0 []
+  | _ => v
+
+def mergeCoreL (cp : Bool) (x : LDoc) (v1 : LDoc) : LM LDoc :=
   match v1, x with
   | .arr _ _ _, .arr sb _ xs =>
       if cp then LM.bind (copyItemsL (dropUndefL xs)) (fun ys => pushAllL ys v1)
       else LM.bind (pushAllL (dropUndefL xs) v1) (fun r => LM.bind (freeOpt sb) (fun _ => LM.pure r))
   | .obj b c s, .obj sb _ src => objMergeL cp b c s sb src
   | _, _ => if cp then LM.pure v1 else LM.bind (dispose x) (fun _ => LM.pure v1)
+
+/-- `Merge(Value&&)` (`cp = false`, the source is finally `Reset()`) / `Merge(const Value&)`. -/
+def mergeL (cp : Bool) (x : LDoc) (v : LDoc) : LM LDoc := mergeCoreL cp x (vivArr v)
 
 def slotRemoveL (k : List Nat) : List LSlot → LM (List LSlot)
   | [] => LM.pure []
@@ -536,7 +567,13 @@ def takeSourceL (env : LEnv) (s : SLoc) : LEnv :=
 def withTmp {α : Type} (k : Nat) (body : LM α) : LM α :=
   LM.bind (allocTmp k) (fun ts => LM.bind body (fun a => LM.bind (freeAll ts) (fun _ => LM.pure a)))
 
-def stepL (op : LOp) (env : LEnv) : LM LEnv :=
+def LOp.target : LOp → LLoc
+  | .assign t _ _ | .touch t | .setType t _ | .copy t _ | .move t _ | .assignObj t _ | .assignArr t _ | .setPtr t _
+  | .append t _ _ | .appendMove t _ | .appendCopy t _ | .appendObj t _ | .appendArr t _ | .addPtr t _ | .insert t _ _
+  | .insertMove t _ _ | .mergeMove t _ | .mergeCopy t _ | .remove t _ _ | .removeIdx t _ | .reset t | .compress t => t
+
+/-- one operation on a target among the forest's roots. -/
+def stepBody (op : LOp) (env : LEnv) : LM LEnv :=
   match op with
   | .assign t x tmp =>
       withTmp tmp (LM.bind (mkPayload x) (fun p => onTargetL env t (replaceBy p)))
@@ -603,6 +640,11 @@ def stepL (op : LOp) (env : LEnv) : LM LEnv :=
   | .removeIdx t i => onTargetL env t (removeIdxL i)
   | .reset t => onTargetL env t (replaceBy .undef)
   | .compress t => onTargetL env t compressL
+
+/-- One operation; an operation whose target root is not a root of the forest is not an operation on this
+forest (the drivers only name existing roots). -/
+def stepL (op : LOp) (env : LEnv) : LM LEnv :=
+  if op.target.root < env.length then stepBody op env else LM.pure env
 
 def runL : List LOp → LEnv → LM LEnv
   | [], env => LM.pure env
